@@ -535,7 +535,8 @@ def check_fnapi_tables(ctx):
 
 
 class C07(_Base):
-  LEAN_MODULES = ['MlModel.Properties.C07.Generated', 'MlModel.Properties.C07.GeneratedFnApi']
+  LEAN_MODULES = ['MlModel.Properties.C07.Generated', 'MlModel.Properties.C07.GeneratedFnApi',
+                  'MlModel.Properties.C07.GeneratedWiring']
   LABELS = None
 
   @classmethod
